@@ -89,6 +89,16 @@ fn case_body(c: &[i128]) -> String {
             "fn gen<const LEN: usize>() -> Vec<i128> where typenum::Const<LEN>: generic_array::IntoArrayLength {{ let a: GenericArray<{t}, _> = arr![{x}; {{LEN}}]; observe(0, &a) }} gen::<{count}>()"
         );
     }
+    // via 5 / 6: the type-level length is written as an alias that is literally named `N` / `T` (the names
+    // of the generic parameters of the helper fn inside the macro: macro_rules does not rename those)
+    if via == 5 || via == 6 {
+        let al = if via == 5 { "N" } else { "T" };
+        return match form {
+            2 => format!("type {al} = {nty}; let a: GenericArray<{t}, _> = arr![{x}; {al}]; observe(0, &a)"),
+            4 => format!("type {al} = {nty}; const A: GenericArray<{t}, {nty}> = arr![{cx}; {al}]; observe(0, &A)"),
+            _ => format!("type {al} = {nty}; let a: Box<GenericArray<{t}, _>> = box_arr![{x}; {al}]; observe(1, &a)"),
+        };
+    }
     match form {
         0 => format!("let a: GenericArray<{t}, _> = arr![{}{commas}]; observe(0, &a)", list()),
         1 => format!("const A: GenericArray<{t}, {nty}> = arr![{}{commas}]; observe(0, &A)", clist()),
@@ -315,6 +325,14 @@ fn generated_cases(thorough: bool) -> Vec<Vec<i128>> {
     for n in [0i128, 1, 3, 16, 64] {
         for et in [0i128, 3] {
             v.push(vec![12, n, et, 0, 4]);
+        }
+    }
+    // the type-level length spelled as an alias named N / T
+    for n in [0i128, 3, 16] {
+        for via in [5i128, 6] {
+            for form in [2i128, 4, 7] {
+                v.push(vec![form, n, 0, 0, via]);
+            }
         }
     }
     // box_arr! is not usable in a const
